@@ -379,7 +379,7 @@ PROPS["C07"] = {
     "replay": replay_generic("worker_mon", "random", "C07"),
     "evaluations": ["histories"],
     "rule": RULE_WORKER + "; at the end every injector is dropped, the matcher is ticked (<= 200 x 50 ms) until running == false and the snapshot is compared with the from-scratch result",
-    "require": {"any": {"c07.quiescent-states-compared": 1000, "directed.typing": 50, "directed.cancel-mid-run": 10}},
+    "require": {"any": {"c07.quiescent-states-compared": 1000, "directed.typing": 50, "directed.cancel-mid-run": 10, "directed.published-between-two-reads-of-the-run": 20}},
     "assumptions": ["append flag is truthful (previous text is a prefix of the new text)", "update_config is not used"],
 }
 PROPS["C12"] = {
@@ -397,7 +397,7 @@ PROPS["C19"] = {
     "evaluations": ["histories"],
     "rule": RULE_WORKER + "; every tick is wrapped: copy of the snapshot before, count of pushes of the current stream completed before",
     "require": {"any": {"tick.changed=false.running=false": 100, "tick.changed=false.running=true": 100, "tick.changed=true.running=false": 100, "tick.changed=true.running=true": 50,
-                         "directed.tick-over-paused-run": 5}},
+                         "directed.tick-over-paused-run": 5, "directed.update-config-mid-run": 3, "update-config-calls": 50}},
     "assumptions": ["'completed before the call' is counted when push/extend has returned on its thread"],
 }
 PROPS["C20"] = {
@@ -422,7 +422,8 @@ PROPS["C13"] = {
              "and timeout 0 (empty and non-empty pattern run paths); random: an event loop that ticks only when notified, injector threads, seeded delays, timeouts 0-5 ms; injector clause: "
              "inside notify on a thread that is inside push/extend the items of that call are visible; same-count runs: a run over a new stream (or after a late publication) whose result has exactly as many matches as the previous one must still notify. distinct_nontrivial = schedules / event loops run"),
     "require": {"any": {"c13.schedules-judged": 200, "c13.ordering[C R L U A]": 10, "c13.ordering[C L R A U]": 10, "c13.ordering[R C L A U]": 10, "c13.ordering[C L A return R U]": 10, "c13.ordering[C R L A (tick goes on, worker held) U]": 10, "c13.ordering[R C L A (tick goes on, worker held) U]": 10,
-                         "c13.event-loops": 20, "c13.injector-notifies-checked": 500, "c13.same-count.variant0.running=true": 3}},
+                         "c13.event-loops": 20, "c13.injector-notifies-checked": 500, "c13.same-count.variant0.running=true": 3,
+                         "c13.update-config.run-held=true.running=true": 3}},
     "assumptions": ["an unbounded 'eventually' is not decidable on a finite run: the verdict is taken when no run is pending any more (final, not a timeout)"],
 }
 
